@@ -6,6 +6,8 @@
 import VarlinkProofs.Lemmas.LifecycleTimeout
 import Varlink.Expected
 import Varlink.Extracted.Skeleton
+import Varlink.Extracted.Code
+import Varlink.ExpectedCode
 namespace Varlink.C14
 open Varlink.Life
 
@@ -401,5 +403,11 @@ example : (run init [.spawn .bind false (some 0), .call 0, .call 0, .call 0, .ca
                      .shutdown]).map (fun w => (obs w, isOpen w 1, (step w (.call 1)).isSome)) =
     some (⟨false, some 1, true, [(.returned, some .nil), (.inAccept, none), (.returned, some .nil)], []⟩, false, false) := by
   decide
+
+/-- **Tie to the source**: the declarations of /repo that this property's model transliterates
+    (`Extracted.codeNames_C14`) have, in the current working tree, exactly the fingerprints of the code the
+    model was validated against. Any change to them breaks this obligation; the check then searches the
+    correspondence streams for an input on which the changed code violates the property. -/
+theorem modelled_code_unchanged : Varlink.Extracted.code_C14 = Varlink.ExpectedCode.code_C14 := by decide
 
 end Varlink.C14
